@@ -25,7 +25,47 @@ type poWorld struct {
 	calls  int
 	made   map[*poB]int // -> invocation
 	closed map[*poB]int
+	madeS  map[*poS]int // "same object" forms
+	closeS map[*poS]int
 }
+
+// poS / poI: the "same object" forms - a constructor func() (*poS, poI) whose retry returns ONE
+// object for both outputs (a cache that also is the store): the scope already served the poI of
+// the first invocation and must keep serving it.
+type poI interface{ PoN() int }
+type poS struct{ n int }
+
+func (x *poS) PoN() int { return x.n }
+func (x *poS) Close() error {
+	if w := poGet(); w != nil {
+		w.mu.Lock()
+		w.closeS[x]++
+		w.mu.Unlock()
+	}
+	return nil
+}
+
+func poMakeSame() (*poS, poI) {
+	w := poGet()
+	w.mu.Lock()
+	defer w.mu.Unlock()
+	w.calls++
+	x := &poS{w.calls}
+	w.madeS[x] = w.calls
+	if w.calls == 1 {
+		return nil, x // the first invocation has no *poS, only the poI
+	}
+	return x, x
+}
+
+type poOutSame struct {
+	godi.Out
+	S *poS
+	I poI
+}
+
+func poCtorMRSame() (*poS, poI) { return poMakeSame() }
+func poCtorOutSame() poOutSame  { s, i := poMakeSame(); return poOutSame{S: s, I: i} }
 
 var (
 	poMu  sync.Mutex
@@ -67,7 +107,7 @@ func poCtorOut() poOut       { a, b := poMake(); return poOut{A: a, B: b} }
 
 // RunPartialOutputs: forms x lifetimes; prop selects which findings are reported.
 func RunPartialOutputs(c *eng.Ctx, prop string, next func() (int, bool)) {
-	for _, form := range []string{"multi-return", "out-struct"} {
+	for _, form := range []string{"multi-return", "out-struct", "multi-return:retry-returns-one-object-twice", "out-struct:retry-returns-one-object-twice"} {
 		for _, life := range []godi.Lifetime{godi.Scoped, godi.Singleton, godi.Transient} {
 			idx, mine := next()
 			if !mine {
@@ -97,7 +137,7 @@ func RunPartialOutputs(c *eng.Ctx, prop string, next func() (int, bool)) {
 }
 
 func poCase(form string, life godi.Lifetime) (fs []Finding) {
-	w := &poWorld{made: map[*poB]int{}, closed: map[*poB]int{}}
+	w := &poWorld{made: map[*poB]int{}, closed: map[*poB]int{}, madeS: map[*poS]int{}, closeS: map[*poS]int{}}
 	poMu.Lock()
 	poCur = w
 	poMu.Unlock()
@@ -112,10 +152,18 @@ func poCase(form string, life godi.Lifetime) (fs []Finding) {
 	}()
 	coll := godi.NewCollection()
 	var err error
-	if form == "multi-return" {
+	same := false
+	switch form {
+	case "multi-return":
 		err = eqAdd(coll, life, poCtorMR)
-	} else {
+	case "out-struct":
 		err = eqAdd(coll, life, poCtorOut)
+	case "multi-return:retry-returns-one-object-twice":
+		same = true
+		err = eqAdd(coll, life, poCtorMRSame)
+	default:
+		same = true
+		err = eqAdd(coll, life, poCtorOutSame)
 	}
 	if err != nil {
 		return
@@ -125,6 +173,22 @@ func poCase(form string, life godi.Lifetime) (fs []Finding) {
 		for si := 0; si < 2; si++ {
 			s, serr := prov.CreateScope(nil)
 			if serr != nil {
+				continue
+			}
+			if same {
+				i1, e1 := godi.Resolve[poI](s)
+				_, _ = godi.Resolve[*poS](s) // may run the constructor again
+				_, _ = godi.Resolve[*poS](s)
+				i2, e2 := godi.Resolve[poI](s)
+				if e1 == nil && e2 == nil && i1 != i2 {
+					switch life {
+					case godi.Scoped:
+						add("two-instances-in-one-scope", fmt.Sprintf("one scope returned two instances of the scoped poI: first the object of invocation %d, after *poS had been resolved the object of invocation %d", i1.PoN(), i2.PoN()))
+					case godi.Singleton:
+						add("identity", fmt.Sprintf("the singleton poI changed from the object of invocation %d to that of invocation %d after *poS had been resolved", i1.PoN(), i2.PoN()))
+					}
+				}
+				_ = s.Close()
 				continue
 			}
 			b1, e1 := godi.Resolve[*poB](s)
@@ -144,6 +208,14 @@ func poCase(form string, life godi.Lifetime) (fs []Finding) {
 	// whatever Build said: every B the constructor made was created by the container
 	w.mu.Lock()
 	defer w.mu.Unlock()
+	for x, inv := range w.madeS {
+		switch n := w.closeS[x]; {
+		case n == 0:
+			add("never-closed", fmt.Sprintf("the object of invocation %d (of %d) was never closed (Build error: %v)", inv, w.calls, berr))
+		case n > 1:
+			add("closed-twice", fmt.Sprintf("the object of invocation %d, returned for both outputs, was closed %d times", inv, n))
+		}
+	}
 	for b, inv := range w.made {
 		switch n := w.closed[b]; {
 		case n == 0:
